@@ -76,7 +76,25 @@ C01_CASES = {
 }
 
 
+C06_CASES = {
+    ("C06", "send-then-try", "dcdff3a"):
+        [("fn", "g", [], [("raise", ERR("x"))]),
+         ("fn", "f", ["ch"], [("expr", ("send", V("ch"), N(1))),
+                              ("try", [("expr", call("g"))], [("e", "Error", [("print", ("prop", V("e"), "message"))])])]),
+         ("expr", call("f", ("chan", N(4))))],
+    ("C06", "launch-native", "8bc6f5a"):
+        [("fn", "f", [], [("launch", call("print", S("hi"))), ("let", "y", N(5)), ("print", V("y"))]),
+         ("expr", call("f"))],
+    ("C06", "break-with-live-locals", "a5389bc"): list(C01_CASES.values())[0],
+    ("C06", "params-in-handler-depth", "1d3bf74"): CASES[("C04", "params-in-handler-depth", "1d3bf74")],
+    ("C06", "return-from-nested-try", "e2c5fa8"): CASES[("C04", "return-from-nested-try", "e2c5fa8")],
+    ("C06", "break-from-nested-try", "e2c5fa8"): CASES[("C04", "break-from-nested-try", "e2c5fa8")],
+}
+
+
 def main():
+    for (pid, name, commit), prog in C06_CASES.items():
+        write(pid, name, commit, ("regression", prog))
     for (pid, name, commit), prog in list(CASES.items()):
         write(pid, name, commit, prog)
     for (pid, name, commit), prog in C01_CASES.items():
